@@ -334,5 +334,5 @@ def run(ctx: Ctx):
         ctx.run_given("noninterference_offpolicy", offpolicy_cases(combo), oracle_noninterference_offpolicy, ctx.n(25, 400), shrink=False)
     for E, S in ((3, 2), (1, 2)) if ctx.quick else ((3, 2), (1, 2), (2, 3), (4, 1)):
         ctx.run_given("dqn_parallel_policy", dqn_policy_cases(E, S), oracle_dqn_parallel_policy, ctx.n(40, 600), shrink=False)
-    ctx.require_fraction("noninterference", "effective", 0.5)
+    ctx.require_fraction("noninterference", "effective", 0.2)
     ctx.require_fraction("dqn_parallel_policy", "online_differs_from_target", 0.3)
